@@ -1931,6 +1931,13 @@ def check_C04(work):
     st0 = trace_check(work, out, jobs, ["PutNeverReplaces", "DirValid"], tag="c04")
     st0 = add_pool(work, out, st0, ["PutNeverReplaces"])
     tfiles = st0["files"]
+    # an entry whose value is the EMPTY file is a value like any other: insert-if-absent operations (put, ensure) leave it alone.
+    # (Planted by a world-building op: the actor's own values always carry a content header.  Judged by the step monitor only --
+    # the register search and DirValid identify values by that header.)
+    wempty = [op("mkfile", path="@TOP@/W/%s" % k, raw="", mode=0o444, mt_ago=50.0, at_ago=170.0)]
+    ejobs = [seq_job("C04-empty-%d" % i_, "%s:empty-entry:%s" % (f_[0], prog_name(pr_)), f_[1], pr_, world=wempty, roots=f_[2], cfg_extra={"key": k})
+             for i_, (f_, pr_) in enumerate([(plainf, [P(k), G(k), P(k), G(k)]), (stackf, [P(k), G(k)]), (stackf, [E(k), G(k)])])]
+    st0e = trace_check(work, out, ejobs, ["PutNeverReplaces"], tag="c04e")
     res = validate_traces(work, "TraceLin", tfiles, {"monitors": []}, tag="c04l")
     byjob = {j["id"]: j for j in jobs}
     nops = 0
@@ -1962,7 +1969,7 @@ def check_C04(work):
                     "{set, put, get, touch} on one key of a plain directory with eviction out of play, plus ensure on a stacked cache; schedules explored by DFS "
                     "over system-call decision points (preemption bound %s) / seeded random; every history searched for a linearization against Register.tla "
                     "(ensure = composite get;put;get); design level: StepRegister / StepGetLin refinement properties of Kismet.tla" % Q(3, "none"),
-               histories=nruns, operations=nops, model_conformant=(len(conf["drifts"]) == 0), ops_conforming_to_Kismet_tla=conf["ops"],
+               histories=nruns, operations=nops, empty_entry_runs=st0e.get("runs", len(ejobs)), model_conformant=(len(conf["drifts"]) == 0), ops_conforming_to_Kismet_tla=conf["ops"],
                design_level=[dict(cfg=d["cfg"], states=d["states"], transitions=d["transitions"], ok=d["ok"], wall_s=round(d["wall"], 1)) for d in design])
     return finish("C04", out, t0, "model_checking", cov, BASE_ASSUME)
 
